@@ -90,7 +90,7 @@ def make_fn(entries):
             gidx = mo._get_gen_index(net, et, 0)
             sign = SIGN[et]
             p_el = sign * Pg[gidx]
-            q_el = (-1 if et in ("load", "storage") else 1) * Qg[gidx]
+            q_el = (-1 if et in ("load", "storage", "dcline") else 1) * Qg[gidx]    # res_dcline.q_from_mvar = -q of the from-side generator
             if kind == "poly":
                 c = {k: 0.0 for k in ("cp0_eur", "cp1_eur_per_mw", "cp2_eur_per_mw2", "cq0_eur", "cq1_eur_per_mvar", "cq2_eur_per_mvar2")}
                 use = {"lin": ["cp0_eur", "cp1_eur_per_mw"], "quad": ["cp0_eur", "cp1_eur_per_mw", "cp2_eur_per_mw2"],
@@ -168,7 +168,8 @@ def instances(tier):
             out.append(Inst(f"poly_{v}_{et}", make_fn([("poly", et, v)]), nvars=24, samples=2, meta=dict(kind="poly", et=et, variant=v),
                             public_replay=_public_replay_poly(et)))
         for v in ["1p", "2p"] + (["3p", "2q"] if tier == "thorough" else []):
-            out.append(Inst(f"pwl_{v}_{et}", make_fn([("pwl", et, v)]), nvars=26, samples=2, meta=dict(kind="pwl", et=et, variant=v)))
+            out.append(Inst(f"pwl_{v}_{et}", make_fn([("pwl", et, v)]), nvars=26, samples=2, max_paths=20000 if v == "2q" else 2000,
+                            meta=dict(kind="pwl", et=et, variant=v)))
     for a, b in [("gen", "load"), ("sgen", "ext_grid"), ("storage", "gen")]:
         out.append(Inst(f"mixed_pwl_{a}_poly_{b}", make_fn([("pwl", a, "2p"), ("poly", b, "lin")]), nvars=26, samples=2,
                         meta=dict(kind="mixed", pwl=a, poly=b)))
